@@ -120,6 +120,10 @@ SHAPES = [("", "g"), ("", "a"), ("", "b"), ("", "*"), ("", "*a"), ("", "ga"), ("
 CAT = {"g": "given", "w": "when", "t": "then", "a": "and", "b": "but"}
 
 
+EN_DOC = "Feature: f\n Scenario: s\n  And a\n  Given b\n  And c\n  When d\n  But e\n  Then f\n  * g\n  And h\n"
+EN_TYPES = ["Unknown", "Context", "Context", "Action", "Action", "Outcome", "Unknown", "Unknown"]
+
+
 def check_dialect(case, stats):
     d, (bgs, own), variant = case["dialect"], case["shape"], case["variant"]
     D = DIALECTS[d]
@@ -161,6 +165,18 @@ def check_dialect(case, stats):
     want = fold(types)
     if got != want:
         raise Violation(case, "dialect %s: pickle step types %r, keyword categories give %r\n%s" % (d, got, want, text))
+    # the same matcher, used for this document (dialect switched by its header), then for a plain English one
+    m = gh.TokenMatcher("en")
+    g = gh.IdGenerator()
+    p = gh.Parser(gh.AstBuilder(g))
+    r1 = gh.parse(text, parser=p, matcher=m)
+    r2 = gh.parse(EN_DOC, parser=p, matcher=m)
+    if r1[0] != "ok" or r2[0] != "ok":
+        raise Violation(case, "reused matcher rejects a well-formed document: %r / %r" % (r1[1][:1] if r1[0] != "ok" else "ok", r2[1][:1] if r2[0] != "ok" else "ok"))
+    pk2 = gh.Compiler(g).compile(dict(r2[1], uri="u"))
+    got2 = [s.get("type", "<missing>") for s in pk2[0]["steps"]]
+    if got2 != EN_TYPES:
+        raise Violation(case, "English document parsed with a matcher that had just handled a %s document: pickle step types %r, expected %r" % (d, got2, EN_TYPES))
 
 
 def unit_dialects(a):
@@ -181,7 +197,16 @@ def unit_dialects(a):
     return stats
 
 
+def unit_reuse(a):
+    from vlib.astgen import st_ast
+    from vlib.refcompile import proj_c10
+    return pc.unit_reuse(a, st_ast(), proj_c10, "C10 projection of the pickles", 70)
+
+
 def replay(case, stats):
+    if case["sub"] == "reuse":
+        from vlib.refcompile import proj_c10
+        return pc.check_reuse(case, stats, proj_c10, "C10 projection of the pickles")
     if case["sub"] == "text":
         from . import textdocs
         return textdocs.check_text(case, stats, "C10")
@@ -194,6 +219,7 @@ def run(ctx):
     maxlen = 5 if q else 7
     ctx.units("type-sequences-exhaustive", unit_seq, [{"maxlen": maxlen, "shard": i, "nshards": ns} for i in range(ns)], procs=ns)
     ctx.units("dialects-through-parser", unit_dialects, [{"shard": i, "nshards": ns, "variants": [0, 1] if q else [0, 1, 2, 3, 4, 5]} for i in range(ns)], procs=ns)
+    ctx.units("compiler-reuse", unit_reuse, [{"n": 300 if q else 4000, "seed": ctx.seed, "shard": i} for i in range(4 if q else 16)], procs=16)
     from . import textdocs
     textdocs.run_text(ctx, "C10")
     ctx.exhaustive = False
